@@ -253,7 +253,7 @@ def choose_step(rng, w, flavor, last=None):
         k = rng.randint(1, min(3, len(vecs)))
         return {"op": "tabfrom", "dst": dst, "srcs": [rng.choice(vecs) for _ in range(k)]}
     if op == "copy":
-        return {"op": "copy", "dst": dst, "src": anyobj()}
+        return {"op": "copy", "dst": dst, "src": anyobj(), "how": rng.choice([None, None, "py", "deep"])}
     if op == "slice":
         src = anyobj()
         n = len(w.slots[src])
@@ -410,7 +410,10 @@ def run_step(w, st):
         elif op == "tabfrom":
             sl[st["dst"]] = Table([sl[i] for i in st["srcs"]])
         elif op == "copy":
-            sl[st["dst"]] = sl[st["src"]].copy()
+            import copy as _copy
+            how = st.get("how")
+            sl[st["dst"]] = (_copy.copy(sl[st["src"]]) if how == "py" else _copy.deepcopy(sl[st["src"]]) if how == "deep"
+                             else sl[st["src"]].copy())
         elif op == "slice":
             sl[st["dst"]] = sl[st["src"]][mk_key(st["key"])]
         elif op == "mask":
